@@ -111,3 +111,7 @@ func vOr(a, b bool) bool  { return a || b }
 // feasible value, at most maxconc); later occurrences of the same expression
 // are constant on each path. Natively it is the identity.
 func vSplit(x uint64) uint64 { return x }
+
+// vEnv32 is an arbitrary value chosen by the environment (not by the replay
+// tape); it only exists under the executor.
+func vEnv32() uint32 { return 0 }
